@@ -766,40 +766,4 @@ Section FilterProofs.
         destruct (strip_left f (rev (c0 :: t))); [congruence | reflexivity].
   Qed.
 
-  Lemma filter_one_keepb o b : filter_one pred skipnone skipcomments skipws o = Ok b -> b = keepb o.
-  Proof.
-    unfold filter_one, keepb, has_isnodetype.
-    destruct o as [n|].
-    - cbn [is_none]. rewrite andb_false_r. cbn [negb andb].
-      destruct pred; destruct n; destruct skipcomments, skipws; cbn [sbind is_comment is_ws_chars andb negb];
-        try rewrite strip_empty_forallb;
-        try (intros H; inversion H; reflexivity); try discriminate;
-        try (destruct (forallb py_isspace chars); cbn [negb andb]; intros H; inversion H; reflexivity).
-    - cbn [is_none is_comment is_ws_chars]. rewrite !andb_false_r, andb_true_r. cbn [negb andb].
-      destruct skipnone; cbn [negb andb]; [intros H; inversion H; reflexivity|].
-      destruct skipcomments; cbn [sbind]; [discriminate|].
-      destruct skipws; cbn [sbind]; [discriminate|]. destruct pred; intros H; inversion H; reflexivity.
-  Qed.
-
-  Lemma filter_loop_spec : forall l fl,
-    filter_loop pred skipnone skipcomments skipws l = Ok fl -> fl = filter keepb l.
-  Proof.
-    induction l as [|o l IH]; intros fl H; cbn [filter_loop] in H; [inversion H; reflexivity|].
-    destruct (filter_one pred skipnone skipcomments skipws o) as [b|] eqn:F1; cbn [sbind] in H; [|discriminate].
-    destruct (filter_loop pred skipnone skipcomments skipws l) as [r|] eqn:FL; cbn [sbind] in H; [|discriminate].
-    inversion H; subst. apply filter_one_keepb in F1. subst b. cbn [filter]. rewrite (IH r eq_refl). reflexivity.
-  Qed.
-
-  (** C18_filter: the result holds exactly the entries that pass the
-      declarative predicate, in their original order; an empty result is
-      positioned at the end of the list *)
-  Theorem filter_list_spec p e l r :
-    filter_list pred skipnone skipcomments skipws (NList p e l) = Ok r ->
-    node_items r = filter keepb l /\
-    (filter keepb l = [] -> r = NList e e []).
-  Proof.
-    cbn [filter_list]. destruct (filter_loop pred skipnone skipcomments skipws l) as [fl|] eqn:FL; cbn [sbind]; [|discriminate].
-    intros H. inversion H; subst. apply filter_loop_spec in FL. subst fl. split; [reflexivity|].
-    intros E. rewrite E. unfold mk_nodelist. destruct e; reflexivity.
-  Qed.
 End FilterProofs.
